@@ -83,7 +83,7 @@ def _exists(f):
     return os.path.exists(os.path.join(vlib.COQ, "theories", f)) or os.path.exists(os.path.join(vlib.COQ, "gen", f))
 def c10(tier):
     vlib.standard(
-        "C10", tier, "c10", ["Properties_C10.v", "Proofs_Expr.v", "Proofs_BoolSimp.v", "Proofs_Rewrites.v"],
+        "C10", tier, "c10", ["Properties_C10.v", "Proofs_Expr.v", "Proofs_BoolSimp.v", "Proofs_Rewrites.v", "Proofs_Stmt.v"],
         assume=[
             "integers are unbounded (Z): the property allows integer reasoning to assume no overflow; the differential oracle keeps unsigned operands away from wrap-around",
             "float64 is modelled as NaN | +-Inf | rational: ordering and NaN behaviour are exact, rounding is not modelled (every model witness is replayed on compiled Go by the oracle)",
